@@ -164,9 +164,9 @@ Proof.
   intros Hp Hm Hv. unfold rescale_val. pose proof (maxsample_nonneg prec Hp) as HM.
   set (M := maxsample prec) in *. split.
   - apply Z.div_pos; [|lia]. assert (0 <= maxval / 2) by (apply Z.div_pos; lia). nia.
-  - apply Z.div_le_upper_bound; [lia|].
-    assert (maxval / 2 < maxval) by (apply Z.div_lt_upper_bound; lia).
-    assert (0 <= maxval / 2) by (apply Z.div_pos; lia). nia.
+  - assert (maxval / 2 < maxval) by (apply Z.div_lt_upper_bound; lia).
+    assert ((v * M + maxval / 2) / maxval < M + 1); [|lia].
+    apply Z.div_lt_upper_bound; [lia|]. nia.
 Qed.
 
 Lemma rescale_val_identity prec v : 0 <= prec -> 0 <= v <= maxsample prec ->
@@ -311,7 +311,7 @@ Section ReaderProofs.
     destruct (is_fast prec k t maxval) eqn:F.
     - destruct (is_fast_M _ _ _ F) as (E & E255 & NW). unfold inrange.
       repeat split; auto; try lia.
-      destruct k; try lia. specialize (E255 eq_refl). lia.
+      destruct k; [lia | specialize (E255 eq_refl); lia | congruence].
     - rewrite Hlook.
       destruct (look_fn_in prec maxval v ltac:(lia) ltac:(lia)) as (x & -> & X & _).
       { destruct k; lia. }
